@@ -5,6 +5,7 @@ Line protocol for the windowed-operation planners (`wn.*`).
   wn.supports_sliding <chunks> W  -> ok 0|1
   wn.out_chunks <chunks> W        -> ok <int list>
   wn.block_plan <chunks> W        -> ok outLen,bandOffset,b,e;…
+  wn.sliding_layer <chunks> W     -> ok i:outLen,bandOffset,<middle blocks>,<band blocks>;…  (emitted tasks)
   wn.supports_moving <chunks> W   -> ok 0|1
   wn.moving_plan <chunks> W       -> ok start,c,bandOffset,g,h,nTrunc,<middle blocks '.'-joined or ->;…
   wn.min_chunksize size <chunks>  -> ok <int list> | err ValueError
@@ -38,6 +39,11 @@ def handle (cmd : String) (args : List String) : Option String :=
   | "wn.block_plan", [c, w] => do
     let c ← parseIntList? c; let w ← parseInt? w
     pure ("ok " ++ ";".intercalate ((slidingBlockPlan c w).map fmtSPlan))
+  | "wn.sliding_layer", [c, w] => do
+    let c ← parseIntList? c; let w ← parseInt? w
+    let rows := (slidingLayer c w).map (fun (i, p) =>
+      s!"{i}:{p.outLen},{p.bandOffset},{fmtMid ((i : Int) + 1) p.b},{fmtMid p.b (p.e + 1)}")
+    pure ("ok " ++ (if rows.isEmpty then "-" else ";".intercalate rows))
   | "wn.supports_moving", [c, w] => do
     let c ← parseIntList? c; let w ← parseInt? w
     if c.isEmpty then pure "err ValueError" else pure (fmtBool (supportsNativeMoving c w))
